@@ -131,7 +131,7 @@ def concrete_repodata(case):
             for name, ent in doc['signatures'].items():
                 if isinstance(ent, dict) and case['stale_key'] in ent:
                     ent[pub] = ent.pop(case['stale_key'])
-    return C.canonserialize(doc)
+    return CC.ref_canon(doc)
 
 
 def mk_case(eng, tp, m, fault=None):
